@@ -95,7 +95,7 @@ def run(pid, tier, replay=None):
         for e in traces:
             f.write(json.dumps(e) + "\n")
     r = vlib.tlc("Trace_Cache", "Trace_Cache", env={"TRACE": path}, workers=1, deque=True, timeout=3000, heap="16g")
-    os.remove(path)
+    vlib.drop_trace(path, "cache")
     if "NOT_CONSUMED" in r["out"] or r["distinct"] == 0 or any(e.startswith("Error:") for e in r["errors"]):
         raise vlib.ToolError("cache trace validation did not complete:\n" + r["out"][-2500:])
     v.cov["states"] += r["distinct"]
